@@ -22,8 +22,11 @@ from pathlib import Path
 VERIF = Path(__file__).resolve().parents[2]
 REPO = Path(os.environ.get("FV_REPO", "/repo"))
 CONTRACTS = VERIF / "contracts"
-EVIDENCE = VERIF / "evidence"
-REPLAY = VERIF / "replay"
+# FV_OUT (self-test / mutation runs only) redirects evidence and replay output so that runs against a
+# mutated copy never overwrite the evidence of /repo itself
+_OUT = Path(os.environ["FV_OUT"]) if os.environ.get("FV_OUT") else VERIF
+EVIDENCE = _OUT / "evidence"
+REPLAY = _OUT / "replay"
 
 KANI_FLAGS = ["-Z", "stubbing", "-Z", "function-contracts", "-Z", "unstable-options"]
 RSS_LIMIT_KB = int(os.environ.get("FV_RSS_LIMIT_GB", "12")) * 1024 * 1024
@@ -221,6 +224,8 @@ def _fill_result(rec: dict, block: str) -> None:
     elif "VERIFICATION:- FAILED" in block:
         if "timed out" in block:
             rec["status"], rec["reason"] = "undecided", "CBMC timed out"
+        elif "not currently supported by Kani was found to be reachable" in block or any("not currently supported by Kani" in fc["description"] for fc in fcs):
+            rec["status"], rec["reason"] = "undecided", "a construct Kani does not support is reachable (its other reported failures are not trustworthy)"
         elif not fcs:
             rec["status"], rec["reason"] = "undecided", "CBMC failed without a failed check (crash / killed / out of memory)"
         elif all(any(u in fc["description"] for u in _UNDECIDED_CHECKS) for fc in fcs):
